@@ -616,6 +616,25 @@ theorem inline_correct {V : Type} (sem : OpSem V) (lit : Lit → V)
       hvf hnn hin hin0 hout hout0 hal hrl hrn hu0' hau hru hlen hE hEf hEr hev
     exact ⟨em, nodes, E', hem, a3, a4, a5, a6⟩
 
+/-- **`contract_of_check`**: the four syntactic fields of the contract are exactly the executable check the driver
+    evaluates on the converter's actual result of every correspondence case; what remains assumed is `meaning`
+    (observed by the onnxruntime oracle: the built model computes what m computes). -/
+theorem contract_of_check {V : Type} (sem : OpSem V) (lit : Lit → V) (conv : Graph → Graph) (g : Graph)
+    (hchk : contractCheck (conv g) g = true)
+    (hmean : ∀ vals, evalModel sem lit (conv g) vals = evalModel sem lit g vals) :
+    ConverterContract sem lit conv g := by
+  unfold contractCheck at hchk
+  simp only [Bool.and_eq_true, beq_iff_eq, List.all_eq_true, Bool.not_eq_true'] at hchk
+  obtain ⟨⟨⟨h1, h2⟩, h3⟩, h4⟩ := hchk
+  refine ⟨h1, h2, fun x hx hin => ?_, fun p hp => h4 p hp, hmean⟩
+  have := h3 x hx
+  simp [List.contains_iff_mem] at this
+  exact this hin
+
+example : contractCheck (.mk ["x"] [("w", .dense 0)] [.mk "" ⟨"", "Add", "", none⟩ ["x", "w"] ["y"] []] ["y"] [])
+      (.mk ["x"] [] [] ["y"] []) = true ∧
+    contractCheck (.mk ["x"] [("x", .dense 0)] [] ["y"] []) (.mk ["x"] [] [] ["y"] []) = false := by decide
+
 /-- non-vacuity of the contract: the identity converter satisfies it for every graph whose nodes assign no input
     and whose initializers are not named like inputs -/
 theorem converter_contract_id {V : Type} (sem : OpSem V) (lit : Lit → V) (g : Graph)
